@@ -296,9 +296,27 @@ impl LuaTableField {
                             }
                         }
 
-                        return Some(LuaIndexKey::Expr(LuaExpr::cast(node).unwrap()));
+                        // a comment node between '[' and the key is not an expression
+                        match LuaExpr::cast(node) {
+                            Some(expr) => return Some(LuaIndexKey::Expr(expr)),
+                            None => continue,
+                        }
                     }
-                    _ => return None,
+                    _ => {
+                        // `{ [ key ] = v }`: whitespace may follow the bracket
+                        if let Some(token) = child.as_token()
+                            && matches!(
+                                token.kind().to_token(),
+                                LuaTokenKind::TkWhitespace
+                                    | LuaTokenKind::TkEndOfLine
+                                    | LuaTokenKind::TkShortComment
+                                    | LuaTokenKind::TkLongComment
+                            )
+                        {
+                            continue;
+                        }
+                        return None;
+                    }
                 }
             } else if let Some(token) = child.as_token() {
                 if token.kind() == LuaTokenKind::TkLeftBracket.into() {
